@@ -17,6 +17,24 @@ pub open spec fn be_acc(buf: Seq<u8>, n: int) -> u64
     if n <= 0 { 0 } else { (be_acc(buf, n - 1) << 8) | (buf[2 + n - 1] as u64) }
 }
 
+pub open spec fn spec_keepalive_ts(buf: Seq<u8>) -> Option<u64> {
+    if buf.len() >= 10 && spec_packet_type(buf) == Some(0x9000u16) { Some(be_acc(buf, 8)) } else { None }
+}
+pub open spec fn spec_keepalive_info(buf: Seq<u8>) -> Option<ConnectionInfo> {
+    if buf.len() >= 38 && spec_packet_type(buf) == Some(0x9000u16) && spec_be16(buf[10], buf[11]) == 0xc01fu16 && spec_be16(buf[12], buf[13]) == 1u16 {
+        Some(ConnectionInfo { conn_id: be32_at(buf, 14), window: be32_at(buf, 18) as i32, in_flight: be32_at(buf, 22) as i32,
+                              rtt_ms: be32_at(buf, 26), nak_count: be32_at(buf, 30), bitrate_bytes_per_sec: be32_at(buf, 34) })
+    } else { None }
+}
+pub open spec fn spec_parse_srt_ack(buf: Seq<u8>) -> Option<u32> {
+    if buf.len() >= 20 && spec_packet_type(buf) == Some(0x8002u16) { Some(be32_at(buf, 16)) } else { None }
+}
+pub open spec fn spec_parse_srt_nak(buf: Seq<u8>) -> Seq<u32> {
+    if buf.len() >= 8 && spec_packet_type(buf) == Some(0x8003u16) { nak_entries(buf, 4, Seq::empty()) } else { Seq::<u32>::empty() }
+}
+pub open spec fn spec_parse_srtla_ack(buf: Seq<u8>) -> Seq<u32> {
+    if buf.len() >= 8 && spec_packet_type(buf) == Some(0x9100u16) { srtla_acks(buf, (buf.len() - 4) / 4) } else { Seq::<u32>::empty() }
+}
 pub open spec fn wrap_inc(x: u32) -> u32 { if x == u32::MAX { 0 } else { (x + 1) as u32 } }
 
 // range expansion of one NAK range entry: seq..=end, stopping when the output holds 1000 entries
@@ -66,10 +84,12 @@ pub open spec fn srtla_acks(buf: Seq<u8>, k: int) -> Seq<u32>
 '''
 
 
-def build(active=None):
-    u = Unit('proto')
-    u.active = active
-    u.add(prelude.INT)
+def build():
+    import world
+    return world.build('proto', active=['proto'])
+
+
+def add_proto(u):
     u.add(u.consts(P + 'constants.rs'))
     u.add(u.item(P + 'types.rs', 'struct', 'ConnectionInfo'))
     u.add(SPEC)
@@ -91,8 +111,7 @@ def build(active=None):
         ]))
 
     u.add(u.fn(P + 'parsers.rs', 'extract_keepalive_timestamp', sub='proto', props=('C15', 'C09'), ret='r', ensures=[
-        C('C15.proto.extract_keepalive_timestamp.layout',
-          'r == (if buf.len() >= 10 && spec_packet_type(buf@) == Some(0x9000u16) { Some(be_acc(buf@, 8)) } else { None::<u64> })'),
+        C('C15.proto.extract_keepalive_timestamp.layout', 'r == spec_keepalive_ts(buf@)'),
     ], loops={0: dict(inv=['buf.len() >= 10', 'ts == be_acc(buf@, i as int)'])}))
 
     u.add(u.fn(P + 'parsers.rs', 'extract_keepalive_conn_info', sub='proto', props=('C15', 'C09'), ret='r', ensures=[
@@ -104,16 +123,15 @@ def build(active=None):
             && r.unwrap().rtt_ms == be32_at(buf@, 26)
             && r.unwrap().nak_count == be32_at(buf@, 30)
             && r.unwrap().bitrate_bytes_per_sec == be32_at(buf@, 34)'''),
+        C('C15.proto.extract_keepalive_conn_info.layout', 'r == spec_keepalive_info(buf@)'),
     ]))
 
     u.add(u.fn(P + 'parsers.rs', 'parse_srt_ack', sub='proto', props=('C15', 'C09'), ret='r', ensures=[
-        C('C15.proto.parse_srt_ack.layout',
-          'r == (if buf.len() >= 20 && spec_packet_type(buf@) == Some(0x8002u16) { Some(be32_at(buf@, 16)) } else { None::<u32> })'),
+        C('C15.proto.parse_srt_ack.layout', 'r == spec_parse_srt_ack(buf@)'),
     ]))
 
     u.add(u.fn(P + 'parsers.rs', 'parse_srt_nak', sub='proto', props=('C15', 'C09'), ret='out', ensures=[
-        C('C15.proto.parse_srt_nak.entries',
-          'out@ == (if buf.len() >= 8 && spec_packet_type(buf@) == Some(0x8003u16) { nak_entries(buf@, 4, Seq::empty()) } else { Seq::<u32>::empty() })'),
+        C('C15.proto.parse_srt_nak.entries', 'out@ == spec_parse_srt_nak(buf@)'),
         C('C15.proto.parse_srt_nak.bounded', 'out.len() <= 1000 + (if buf.len() >= 4 { (buf.len() - 4) / 4 } else { 0 })'),
     ], loops={
         0: dict(inv=['buf.len() >= 8', '4 <= i', 'i % 4 == 0', 'i <= buf.len()',
@@ -130,8 +148,7 @@ def build(active=None):
     ]))
 
     u.add(u.fn(P + 'parsers.rs', 'parse_srtla_ack', sub='proto', props=('C15', 'C09'), ret='out', ensures=[
-        C('C15.proto.parse_srtla_ack.layout',
-          'out@ == (if buf.len() >= 8 && spec_packet_type(buf@) == Some(0x9100u16) { srtla_acks(buf@, (buf.len() - 4) / 4) } else { Seq::<u32>::empty() })'),
+        C('C15.proto.parse_srtla_ack.layout', 'out@ == spec_parse_srtla_ack(buf@)'),
         C('C15.proto.parse_srtla_ack.count', 'out.len() == (if buf.len() >= 8 && spec_packet_type(buf@) == Some(0x9100u16) { (buf.len() - 4) / 4 } else { 0 })'),
     ], loops={
         0: dict(inv=['buf.len() >= 8', '4 <= i', 'i % 4 == 0', 'i <= buf.len()',
@@ -139,4 +156,3 @@ def build(active=None):
                      C('C15.proto.parse_srtla_ack.count', 'out.len() == (i - 4) / 4')],
                 dec='buf.len() - i'),
     }))
-    return u
